@@ -214,6 +214,7 @@ def getOp (j : Json) : Except String Op := do
     | "accept" => pure .accept | "acceptbg" => pure .acceptbg | "lclose" => pure .lclose
     | "write" => pure .write | "read" => pure .read | "readbg" => pure .readbg | "join" => pure .join
     | "closeconn" => pure .closeconn | "closemux" => pure .closemux | "cut" => pure .cut
+    | "tear" => pure .tear
     | k => throw s!"unknown op {k}"
   let len ← getNat j "len"
   let seed ← getNat j "seed"
@@ -296,6 +297,31 @@ def scriptSpec (ops : Array Op) (res : Array Seen) (late : List (Nat × Seen)) (
           if bytes ≥ left then cutAt := some i
           else armed := (op.x, left - bytes) :: armed.filter (·.1 != op.x)
         | _, _ => pure ()
+  -- … and a header write torn after 1..7 bytes (op `tear` followed by the Write that failed
+  -- on the trunk): from then on that end must be dead
+  let mut tornAt : List (Nat × Nat) := []        -- (end, op index of the torn write)
+  let mut tearArmed : List (Nat × Nat) := []
+  for i in [0:ops.size] do
+    let op : Op := ops[i]!
+    if op.kind == OpKind.tear then tearArmed := (op.x, op.k) :: tearArmed.filter (·.1 != op.x)
+    else if op.kind == OpKind.write then
+      match tearArmed.find? (·.1 == op.x), res[i]! with
+      | some (_, k), .err "wfail" =>
+        tearArmed := tearArmed.filter (·.1 != op.x)
+        if k ≥ 1 && k < 8 then tornAt := (op.x, i) :: tornAt
+      | _, _ => pure ()
+  -- handle ↦ (id, op index of its creation), per end, from the Open results
+  let handles := fun (x : Nat) => (List.range ops.size).filterMap fun i =>
+    let op : Op := ops[i]!
+    if op.x == x && (op.kind == OpKind.open || op.kind == OpKind.dial) then
+      match res[i]! with | .conn h => some (h, op.id, i) | _ => none
+    else none
+  -- first op that injects or reveals any failure (close, cut, tear, an error result)
+  let firstFault : Nat := ((List.range ops.size).find? fun i =>
+    let op : Op := ops[i]!
+    op.kind == OpKind.cut || op.kind == OpKind.tear || op.kind == OpKind.closemux ||
+      op.kind == OpKind.closeconn || op.kind == OpKind.lclose ||
+      (match res[i]! with | .err k => k != "reserved" | _ => false)).getD ops.size
   for x in [0, 1] do
     -- when is end x known to be closed?  (first Read error on a conn that was not closed
     -- individually, or a returned mux Close)
@@ -304,6 +330,8 @@ def scriptSpec (ops : Array Op) (res : Array Seen) (late : List (Nat × Seen)) (
     let mut lstConn : List (Nat × Nat) := []      -- listener index ↦ conn handle (from accept results)
     let mut openedAt : List (Nat × Nat) := []     -- handle ↦ op index of its creation
     let mut errKinds : List String := []
+    let mut knownClosed : List Nat := []      -- handles seen closed (own Read error / own Close)
+    let mut muxCloseReturned := false
     let mut nl := 0
     for i in [0:ops.size] do
       let op := ops[i]!
@@ -314,12 +342,14 @@ def scriptSpec (ops : Array Op) (res : Array Seen) (late : List (Nat × Seen)) (
         if !(openedAt.any (·.1 == h)) then openedAt := openedAt ++ [(h, i)]
       | .listen, .lst _ => nl := nl + 1
       | .accept, .conn h => lstConn := lstConn ++ [(op.h, h)]
-      | .closeconn, .ok _ => connClosed := op.h :: connClosed
+      | .closeconn, .ok _ => connClosed := op.h :: connClosed; knownClosed := op.h :: knownClosed
       | .lclose, .ok _ =>
         match lstConn.find? (·.1 == op.h) with
         | some (_, h) => connClosed := h :: connClosed
         | none => connClosed := connClosed   -- conn never handed out: its handle is unknown to the observer
-      | .closemux, .ok _ => if closedAt.isNone then closedAt := some i
+      | .closemux, .ok _ =>
+        muxCloseReturned := true
+        if closedAt.isNone then closedAt := some i
       | _, _ => pure ()
       -- hangs
       let isBlocked := final i == .blocked
@@ -327,7 +357,27 @@ def scriptSpec (ops : Array Op) (res : Array Seen) (late : List (Nat × Seen)) (
         match op.kind with
         | .closeconn | .closemux | .lclose =>
           out := fail out s!"op {i}: close did not return" "C11:close-hangs"
-        | .read | .readbg | .write =>
+        | .write =>
+          -- script payloads are far below the socket buffer: a Write never waits for the peer
+          out := fail out s!"op {i}: Write did not return" "C11:write-hangs"
+        | .read | .readbg =>
+          -- completeness (C10): before anything failed, a Read for which the peer has
+          -- successfully written more frames than were read so far must not stay blocked
+          if i < firstFault && op.kind == OpKind.read then
+            match (handles x).find? (·.1 == op.h) with
+            | some (_, id, oi) =>
+              let peerHs := ((handles (1 - x)).filter (·.2.1 == id)).map (·.1)
+              let sentN := ((List.range i).filter fun j =>
+                let oj : Op := ops[j]!
+                j > oi && oj.x != x && oj.kind == OpKind.write && peerHs.contains oj.h &&
+                  (match res[j]! with | .ok _ => true | _ => false)).length
+              let gotN := ((List.range i).filter fun j =>
+                let oj : Op := ops[j]!
+                oj.x == x && oj.h == op.h && (oj.kind == OpKind.read || oj.kind == OpKind.readbg) &&
+                  (match final j with | .data _ _ => true | _ => false)).length
+              if sentN > gotN then
+                out := fail out s!"op {i}: Read blocked although {sentN} frames were written to id {id} and only {gotN} read: a frame was not delivered" "C10:frame-not-delivered"
+            | none => pure ()
           match closedAt with
           | some c =>
             let lateOpen := match openedAt.find? (·.1 == op.h) with
@@ -343,12 +393,23 @@ def scriptSpec (ops : Array Op) (res : Array Seen) (late : List (Nat × Seen)) (
                 out := fail out s!"op {i}: Read still blocked although the trunk was cut at op {c}" "C11:blocked-after-cut"
             | none => pure ()
         | _ => pure ()
+      match tornAt.find? (·.1 == x) with
+      | some (_, t) =>
+        if i > t then
+          match op.kind, r with
+          | .write, .ok _ => out := fail out s!"op {i}: Write succeeded although the header write of op {t} was torn: the mux did not stop" "C11:write-ok-after-torn-header"
+          | _, _ => pure ()
+      | none => pure ()
       -- results after the close
       match closedAt with
       | some c =>
         if i > c then
           match op.kind, r with
-          | .write, .ok _ => out := fail out s!"op {i}: Write succeeded after the mux closed (op {c})" "C11:write-ok-after-close"
+          | .write, .ok _ =>
+            -- (per handle: `mux.Close` closes the connections one after the other, so an error
+            -- seen on one handle does not date the close of another; a returned Close does)
+            if knownClosed.contains op.h || muxCloseReturned then
+              out := fail out s!"op {i}: Write succeeded after the connection was closed (op {c})" "C11:write-ok-after-close"
           | .read, .data _ _ => out := { out with tags := "select:data-after-close" :: out.tags }
           | _, _ => pure ()
       | none => pure ()
@@ -359,6 +420,7 @@ def scriptSpec (ops : Array Op) (res : Array Seen) (late : List (Nat × Seen)) (
           errKinds := errKinds ++ [k]
           -- (only an error returned at once dates the close; a call that blocked first, or a
           -- background Read, got its error at an unknown later time)
+          if op.kind == .read && r != .blocked then knownClosed := op.h :: knownClosed
           if op.kind == .read && r != .blocked && closedAt.isNone && !(connClosed.contains op.h) then closedAt := some i
           if op.kind == .readbg then out := { out with tags := "bgread:woken-by-error" :: out.tags }
       | .readbg, .data _ _ => out := { out with tags := "bgread:woken-by-data" :: out.tags }
